@@ -11,7 +11,24 @@ def ob(id, entry, cases, expect, bounds, mode='fpa', **kw):
              outside=['byte-level / JSON-level parsing, schema validation, formatting variants (rapidjson + std::string code: not encodable, DESIGN.md 4/C12)'])
     d.update(kw); return d
 L2 = (0, 1, 2)
+import C06 as _C06
+SEC_EXPECT = ['a section for a coordinate that does not exist is rejected with an exception', 'a section whose number of segments differs from the default list is rejected with an exception', 'consistent sections are accepted',
+              'every coordinate carries the segments of its own section, the default segment list when no section names it', 'Cartesian: the bounding box contains every coordinate extended by maximum thickness + maximum total length', 'end', 'end-rejected']
+def sec(fam, name, cases, cases_thorough, expect=SEC_EXPECT):
+    return dict(id='C12.sections.' + name, harness='c07_parse.cc', entry='h_c12_sections', mode='real', cases=[(fam,) + c for c in cases], cases_thorough=[(fam,) + c for c in cases_thorough], expect=expect,
+                bounds='2-3 coordinates, 1-2 default segments, 1-2 section overrides with ARBITRARY 32-bit coordinate numbers, 1-2 segments per override; Cartesian', tus=['c07_parse.cc'] + _C06.TUS[1:], native=False, allow_throw=True,
+                stubs=['Parameters API stub: coordinates, dip point, default segment list and the overrides (coordinate number, segment values) arbitrary; no models; the stub answers the repeated visits of a section with the same values'],
+                assumes=['non-negative lengths and thicknesses (schema)'], outside=['models inside section segments (model inheritance lives in Parameters::get_vector<Segment>, JSON layer)', 'spherical coordinates'], time_cap=900, fork_select=False)
+SEC_Q = [(2, 1, 1, 1), (2, 1, 2, 1), (2, 1, 1, 2), (2, 2, 1, 1), (2, 2, 2, 2), (3, 1, 1, 1)]
+SEC_T = SEC_Q + [(3, 1, 2, 1), (3, 2, 1, 2), (2, 2, 2, 1), (3, 2, 2, 2)]
+DEFL_FAM = ['continental_plate', 'oceanic_plate', 'mantle_layer', 'fault', 'subducting_plate', 'plume']
+DEFL = dict(id='C12.range.deflection', harness='c12_deflect.cc', entry='h_c12_deflection', mode='fp', cases=[(f, n) for f in range(6) for n in (1, 2)], cases_thorough=[(f, n) for f in range(6) for n in (1, 2, 3)],
+            expect=['an accepted deflection lies within its documented range [0,1]', 'accepted', 'rejected', 'end'], bounds='the six "random uniform distribution deflected" grains models, 1-2 (3) compositions, every list value an arbitrary double',
+            tus=['c12_deflect.cc'] + T1[1:] + ['features/%s_models/grains/random_uniform_distribution_deflected' % f for f in DEFL_FAM] + ['features/%s_models/grains/interface' % f for f in DEFL_FAM] + ['objects/surface', 'kd_tree', 'features/feature_utilities'],
+            stubs=ST, native=False, allow_throw=True, assumes=['values arbitrary doubles (NaN included)'], outside=['the JSON layer'])
 OBLIGATIONS = [
+    DEFL,
+    sec(0, 'slab', SEC_Q, SEC_T), sec(1, 'fault', SEC_Q, SEC_T),
     ob('C12.len.plume', 'h_c12_plume', [(2, 2, 2, 2, 2), (1, 1, 1, 1, 1), (2, 1, 2, 2, 2), (2, 2, 1, 2, 2), (2, 2, 2, 1, 2), (2, 2, 2, 2, 1), (1, 2, 2, 2, 2), (2, 0, 2, 2, 2), (2, 2, 0, 0, 0)],
        ['plume: consistent list lengths are accepted', 'plume: lists whose lengths differ from the number of coordinates are rejected with an exception', 'queried', 'end'], 'list lengths 0..2 (quick), 0..3 all combinations with one deviating list (thorough)',
        cases_thorough=[(c, d, a, e, r) for c in (1, 2, 3) for (d, a, e, r) in [(c, c, c, c)] + [tuple(x if i != j else y for i in range(4)) for j in range(4) for x in (c,) for y in (0, 1, 2, 3) if y != c]]),
